@@ -228,7 +228,11 @@ class Schema(dict, metaclass=LogicalMeta):
             # check if any of those dependencies is not in __dict__, and directly return if found one
             for dep in field.dependencies:
                 dep_field = self.__parser__.get_field(dep)
-                if not dep_field or dep_field.attname not in self.__dict__:
+                if not dep_field or (
+                    dep_field.attname not in self.__dict__
+                    # a field assigned after the instance was made lives in the mapping only
+                    and not super().__contains__(dep_field.name)
+                ):
                     return
 
         try:
